@@ -393,7 +393,7 @@ def enc_code(value):
     return units
 
 
-def enc_rl(n, runs, sample_width=None):
+def enc_rl(n, runs, sample_width=None, pad_last=False):
     data = []
     samples = []
     pos = 0
@@ -407,6 +407,10 @@ def enc_rl(n, runs, sample_width=None):
         data += units
         pos = s + l
         ones += l
+    if pad_last and data:
+        # The document forbids padding in a final block that is NOT full; a writer may still emit a final block of exactly
+        # 64 units whose tail is padding (a full block with padding, like every other block).
+        data += [0] * (64 * (len(samples) // 2) - len(data))
     minimal = bit_len(max(samples)) if samples else 1
     width = minimal if sample_width is None else max(minimal, sample_width)
     return enc_elem(n) + enc_elem(ones) + enc_int(width, samples) + enc_int(4, data)
